@@ -128,6 +128,31 @@ def r03_5(ctx):
                             obs.add(lab(o.value))
                     key = f"cast_operands[immutable_a={imm},a={'s' if sa else 'u'},b={'s' if sb else 'u'},Wa{order}Wb]"
                     ctx.check(key, obs == {exp}, exp, " | ".join(sorted(obs)), fn_where(idx, fi))
+    operand_kind_independence(ctx)
+
+
+def operand_kind_independence(ctx):
+    """cast_operands converts the operand it is given, whatever kind of node it is (in particular an operand that is itself
+    the result of a promotion: Cast(s32, int8) converted to u32 must stay Cast(u32, Cast(s32, int8)))."""
+    idx = get_index(ctx.env)
+    classes = sorted(c for c in set(idx.subclasses("Pure")) | set(idx.subclasses("Hybrid")) if c in idx.classes)
+    ctx.need(len(classes) >= 15, f"value classes of the IR: only {len(classes)} found")
+    for cname in classes:
+        r = Runner(idx, keep_real=("cast_operands",), sym_compare=interval_compare({}))
+        def kw(cname=cname):
+            inner = r.pure("inner", vt=vt_case("ti", True, 8))
+            a = r.pure("a", vt=vt_case("ta", True, 32), cls=cname, ops=[inner])
+            return {"immutable_a": False, "a": a, "b": r.pure("b", vt=vt_case("tb", False, 32))}
+        fi, outs = r.run("cast_operands", lambda: [], args_list=True, kwargs=kw, may_subclass=False)
+        obs = set()
+        for o in outs:
+            if o.kind == "raise":
+                obs.add(f"RAISE {o.value}")
+            elif isinstance(o.value, (tuple, list)) and len(o.value) == 2:
+                obs.add("(" + ", ".join(clean(lab(x)) for x in o.value) + ")")
+            else:
+                obs.add(lab(o.value))
+        ctx.check(f"cast_operands[a is a {cname} of type (s,32), b (u,32)]", obs == {"(Conv((u,32),a), b)"}, "(Conv((u,32),a), b)", " | ".join(sorted(obs)), fn_where(idx, fi))
 
 
 @rule("R03.6", "C03", "promotion_cast: narrower than 32 bit -> conversion to (signed, 32); otherwise the operand itself", min_instances=3)
@@ -207,21 +232,22 @@ def r03_3(ctx):
             ctx.check(f"assignment_expr[{op}] result conversion", shape in ("converted to type(dest)", "node typed by dest (a=items[0])"),
                       "result has the destination type", shape, fn_where(idx, fi))
 
-    # --- chained assignment a = b = e : the outer source is the (converted) value of the inner assignment
-    r = Runner(idx)
-    holder = {}
-    def chained():
-        inner_src = r.pure("inner.src", cls="Cast")
-        inner = AObj("Assignment", {"src": inner_src, "dest": r.pure("inner.dest"), "assign_type": am["="]}, label="items[2]", opaque=True)
-        return [r.pure("items[0]", vt=wide("t0", True, 1, 64)), Tok("ASSIGN_OP", "="), inner]
-    interp_kw = {}
-    fi, outs = r.run("assignment_expr", chained, may_subclass=True)
-    good = [o for o in outs if o.kind != "raise"]
-    ctx.need(good, "assignment_expr has no translating path for a chained assignment")
-    for o in good:
-        assigns = [e[2] for e in o.events if e[0] == "node" and e[1] == "Assignment"]
-        srcs = sorted({lab(a.fields.get("src")) for a in assigns})
-        ctx.check("assignment_expr[a = b = e] outer source", srcs == ["Conv(type(items[0]),inner.src)"], "Conv(type(items[0]), value of the inner assignment)", str(srcs), fn_where(idx, fi))
+    # --- chained assignment a = b = e : the outer source is the (converted) value the inner target holds afterwards.
+    #     The inner assignment is sequenced first (R05.6): a variable target is read back; a register target cannot be
+    #     (register reads see the value from before the instruction), there the already converted inner source is shared.
+    for dcls, exp_src in (("LocalVar", "inner.dest"), ("Variable", "inner.dest"), ("Register", "inner.src")):
+        r = Runner(idx)
+        def chained(dcls=dcls):
+            inner_src = r.pure("inner.src", cls="Cast")
+            inner = AObj("Assignment", {"src": inner_src, "dest": r.pure("inner.dest", cls=dcls), "assign_type": am["="]}, label="items[2]", opaque=True)
+            return [r.pure("items[0]", vt=wide("t0", True, 1, 64)), Tok("ASSIGN_OP", "="), inner]
+        fi, outs = r.run("assignment_expr", chained, may_subclass=True)
+        good = [o for o in outs if o.kind != "raise"]
+        ctx.need(good, "assignment_expr has no translating path for a chained assignment")
+        for o in good:
+            assigns = [e[2] for e in o.events if e[0] == "node" and e[1] == "Assignment"]
+            srcs = sorted({lab(a.fields.get("src")) for a in assigns})
+            ctx.check(f"assignment_expr[a = b = e, b a {dcls}] outer source", srcs == [f"Conv(type(items[0]),{exp_src})"], f"Conv(type(items[0]), {exp_src})", str(srcs), fn_where(idx, fi))
 
     # --- declaration with initialiser: set_dest_type re-converts once the declared type is known
     r = Runner(idx, keep_real=())
